@@ -21,5 +21,5 @@ pub use compare::{OrderSpec, compare, compare_engine_results, same_multiset};
 pub use db::{Database, Domain, Table, rich_databases};
 pub use engine::{ContextOptions, Layout, QueryResult, TextEncoding, block_on, default_config, make_context, run_df, run_plan, run_sql};
 pub use grammar::{GenQuery, QueryFlags, Tier, operator_cover, queries};
-pub use reference::{RefOutcome, RefResult, evaluate};
+pub use reference::{Quirks, RefOutcome, RefResult, evaluate, evaluate_with};
 pub use value::{ColType, Row, Value};
